@@ -14,6 +14,5 @@ s = s.replace(old, new, 1)
 open(p, "w").write(s)
 PY
 cd /verif
-VERIF_REPO=/tmp/mut ./vcheck "$PROP" --no-shrink "$@" | grep -E "bucket|VIOLATION|tier=" | head -12 || true
-rm -f replays/$PROP/new-*
+VERIF_REPO=/tmp/mut VERIF_OUT=/tmp/mut/out ./vcheck "$PROP" --no-shrink "$@" | grep -E "bucket|VIOLATION|tier=" | head -12 || true
 rm -rf /tmp/mut
